@@ -7,7 +7,7 @@ from engine.common import VERIF
 H = os.path.join(VERIF, "harness", "inmem")
 US = [(r"Iterator>::any::<", 3, "loops?"), (r"__ordset::cmp::<", 5, "loops?")]
 
-QUICK = ["c01_fd_0000", "c01_fd_0001", "c01_fd_1000", "c01_fd_1010", "c01_fd_0110", "c01_fd_0101", "c01_fd_res_so_gpconst_light",
+QUICK = ["c01_fd_0000", "c01_fd_0001", "c01_fd_1000", "c01_fd_1010", "c01_fd_0110", "c01_fd_0101", "c01_fd_0011", "c01_fd_res_so_gpconst_light",
          "c01_fd_res_kind_p_sconst", "c01_ld_1001", "c01_ld_res_gnot",
          "c01_fg_000", "c01_fg_001", "c01_fg_010", "c01_fg_100", "c01_fg_011", "c01_fg_res_not_o_sconst", "c01_fg_res_two_p_sconst", "c01_lg_res_two_p_sconst", "c01_ld_res_gkind",
          "c01_lg_100", "c01_lg_res_not_s", "c01_fd_index_full"]
@@ -69,7 +69,7 @@ def spec_matchers(tier):
 
 
 # the FastDataset index-selection arms that the 2-operation quick set does not reach: swept with 1-operation histories
-QUICK_K1 = ["c01_fd_0010", "c01_fd_0011", "c01_fd_0100", "c01_fd_1001", "c01_fd_1100"]   # the three-constant arms (0111, 1011, 1101, 1110: 100-300 s each) are in the thorough tier only
+QUICK_K1 = ["c01_fd_0010", "c01_fd_0100", "c01_fd_1001", "c01_fd_1100", "c01_ld_1101", "c01_fg_101", "c01_fg_110"]   # ld_0001 (240 s even with one operation) stays in the thorough tier   # the three-constant arms (0111, 1011, 1101, 1110: 100-300 s each) are in the thorough tier only
 
 
 def spec_k1(tier):
